@@ -317,6 +317,9 @@ func checkC11(c *hx.Ctx) {
 		}
 	})
 	c11ThroughBatchFiles(c)
+	// client-built creates posted one after the other through the REST handler: what is queued for each is what was posted
+	c08ThroughREST(c)
+	c.Floor("rest_runs_with_several_creates", 10)
 	c.Floor("batch_file_rounds_with_recover_and_update", 10)
 	c.Floor("batch_file_rounds_with_deferred_request", 20)
 	c.Floor("batch_file_chains_with_suffix_data_type", 20)
